@@ -94,6 +94,36 @@ func guard(f func() string) (obs string, pi *panicInfo) {
 	return f(), nil
 }
 
+// showValue: what a Go caller does with the result - render the value (SexpString), read the error text.
+func showValue(v zygo.Sexp, err error) {
+	if err != nil {
+		_ = err.Error()
+		return
+	}
+	if v != nil {
+		_ = v.SexpString(nil)
+	}
+}
+
+// replShow: what repl.go Repl does with the outcome of a line: the stack trace text for an error,
+// the echo of the value otherwise (dot-symbols and selectors are resolved first).
+func replShow(env *zygo.Zlisp, v zygo.Sexp, err error) {
+	if err != nil {
+		_ = env.GetStackTrace(err)
+		return
+	}
+	if v == nil || v == zygo.SexpNull {
+		return
+	}
+	if sel, ok := v.(zygo.Selector); ok {
+		if rhs, e := sel.RHS(env); e == nil && rhs != nil {
+			_ = rhs.SexpString(nil)
+			return
+		}
+	}
+	_ = v.SexpString(nil)
+}
+
 func classifyErr(err error) string {
 	if err == nil {
 		return ObsValue
@@ -144,14 +174,17 @@ func runEntry(env *zygo.Zlisp, e int, src string, budget int64) (string, *panicI
 	obs, pi := guard(func() string {
 		switch e {
 		case EEval:
-			_, err := env.EvalString(src)
+			v, err := env.EvalString(src)
+			showValue(v, err)
 			return classifyErr(err)
 		case ELoadRun:
 			err := env.LoadString(src)
 			if err != nil {
 				return ObsError
 			}
-			_, err = env.Run()
+			var v zygo.Sexp
+			v, err = env.Run()
+			showValue(v, err)
 			return classifyErr(err)
 		case EParse:
 			p := env.VerifParser()
@@ -178,7 +211,8 @@ func runEntry(env *zygo.Zlisp, e int, src string, budget int64) (string, *panicI
 		case EFollow:
 			// the text, then a fixed battery on the SAME interpreter (as the next lines of a session),
 			// also after Clear(): a panic or hang of a LATER evaluation belongs to the history
-			_, err := env.EvalString(src)
+			v, err := env.EvalString(src)
+			showValue(v, err)
 			first := classifyErr(err)
 			if err != nil {
 				env.Clear()
@@ -199,7 +233,8 @@ func runEntry(env *zygo.Zlisp, e int, src string, budget int64) (string, *panicI
 		case EApply:
 			// a duplicate interpreter: same globals, brand-new stacks (stale stack slots hide empty-slot bugs)
 			d := env.Duplicate()
-			_, err := d.EvalString(src)
+			v, err := d.EvalString(src)
+			showValue(v, err)
 			return classifyErr(err)
 		}
 		return "?"
@@ -282,13 +317,17 @@ func replFeed(env *zygo.Zlisp, src string) string {
 		var everr error
 		if len(xs) > 0 {
 			wrapped := zygo.MakeList([]zygo.Sexp{infixSym, &zygo.SexpArray{Val: append([]zygo.Sexp{}, xs...), Env: env}})
-			_, everr = env.EvalExpressions([]zygo.Sexp{wrapped})
+			var v zygo.Sexp
+			v, everr = env.EvalExpressions([]zygo.Sexp{wrapped})
+			replShow(env, v, everr)
 		} else {
 			if strings.TrimSpace(text) == "" {
 				env.Clear()
 				continue
 			}
-			_, everr = env.EvalString(env.ReplLineInfixWrap(text) + " ")
+			var v zygo.Sexp
+			v, everr = env.EvalString(env.ReplLineInfixWrap(text) + " ")
+			replShow(env, v, everr)
 		}
 		last = classifyErr(everr)
 		if everr != nil {
@@ -476,7 +515,7 @@ func entriesFor(stream string) []int {
 	switch {
 	case stream == "builtins":
 		return []int{EEval, EApply, EFollow}
-	case stream == "programs":
+	case stream == "programs" || stream == "typed":
 		return []int{EEval, ELoadRun, ERepl, EApply, EFollow}
 	case strings.HasPrefix(stream, "tok"):
 		return []int{EEval, ELoadRun, EParse, EParseFile, ERepl, EMacexpand, EApply}
@@ -603,6 +642,14 @@ func workerMain(st Stream, from, to int, progressPath, resultPath string, budget
 			setProgress(i, e)
 			obs, pi := runEntry(w.env, e, src, w.budget)
 			hist[entryNames[e]+":"+obs]++
+			if e == EEval && only < 0 && strings.HasPrefix(st.Shape(i), "F ") {
+				// call-check tie: outcome class of the typed call for the model of check.go
+				cls := map[string]string{ObsValue: "ok", ObsError: "err", ObsPanic: "crash"}[obs]
+				if cls != "" {
+					fmt.Fprintf(res, "C\t%d\t%s\t%s\n", i, st.Shape(i), cls)
+					nTie++
+				}
+			}
 			if obs == ObsPanic {
 				key := entryNames[e] + "|" + pi.site + "|" + pi.msg
 				seenPanic[key]++
